@@ -1120,6 +1120,12 @@ func (e *Entry) Augment(addErrors bool) (processed, skipped int) {
 			unapplied = append(unapplied, a)
 			continue
 		}
+		if target.Dir == nil {
+			// A leaf, leaf-list, anydata or anyxml cannot have children.
+			e.errorf("%s: augment %s: target is not a node that can have children", Source(a.Node), a.Name)
+			processed++
+			continue
+		}
 		// Augments do not have a prefix we merge in, just a node.
 		// We retain the namespace from the original context of the
 		// augment since the nodes have this namespace even though they
